@@ -533,6 +533,53 @@ def dynamic_docs(t):
     return docs
 
 
+def instantiation_docs(t):
+    """system sections: chains of 1-3 (partial) instantiations of a template with two bounded parameters - every list of own
+    parameters (none, one, two, swapped names) x every argument list over own parameters, literals and expressions, too few and too
+    many arguments included - ending in a system line; XML and XTA"""
+    import itertools
+    docs = []
+    T = X.template("T", params="const int[0,1] a, const int[0,2] b", decl="int[0, a + b] v; int w;", locations=[X.location("id0", "L0"), X.location("id1", "L1")],
+                   init="id0", transitions=[X.transition("id0", "id1", guard="v <= a && w >= b", assign="w = a + b")])
+    txta = ("process T(const int[0,1] a, const int[0,2] b) { int[0, a + b] v; int w; state L0, L1; init L0; "
+            "trans L0 -> L1 { guard v <= a && w >= b; assign w = a + b; }; }\n")
+    g = "const int c1 = 1; int gi;"
+    plists = [[], ["x"], ["x", "y"], ["y", "x"]]
+
+    def levels(depth, prev_name, prev_arity, lines, names):
+        if depth == 0:
+            yield lines, prev_name
+            return
+        name = "I%d" % len(lines)
+        for pl in plists:
+            ptxt = ", ".join("const int[0,%d] %s" % (1 if n_ == "x" else 2, n_) for n_ in pl)
+            atoms = pl + ["1", "0"] + (["c1", pl[0] + " + 0"] if t == "thorough" and pl and total_depth[0] < 3 else [])
+            arities = [prev_arity] if depth > 1 else [prev_arity, prev_arity - 1, prev_arity + 1]
+            for ar in arities:
+                if ar < 0:
+                    continue
+                for args in itertools.product(atoms, repeat=ar):
+                    line = "%s%s = %s(%s);" % (name, "(%s)" % ptxt if pl else ("()" if len(lines) % 2 else ""), prev_name, ", ".join(args))
+                    yield from levels(depth - 1, name, len(pl), lines + [line], names + [name])
+    k = 0
+    total_depth = [0]
+    for depth in (1, 2, 3):
+        total_depth[0] = depth
+        if depth == 3 and t != "thorough":
+            continue
+        for lines, last in levels(depth, "T", 2, [], []):
+            k += 1
+            if depth == 3 and k % 11:
+                continue
+            if depth == 2 and t != "thorough" and k % 3:
+                continue
+            system = "\n".join(lines) + "\nsystem %s;" % last
+            docs.append(("sem:instantiation:%s" % " ".join(lines), X.nta(g, [T], system), "xml"))
+            if k % 4 == 0 or t == "thorough":
+                docs.append(("sem:instantiation-xta:%s" % " ".join(lines), g + "\n" + txta + system + "\n", "xta"))
+    return docs
+
+
 def initialiser_docs(t):
     """every initialiser list of up to 4 (quick: 3) elements for a record of 1..3 fields and for arrays: positional values, named
     fields in any order (known, repeated, unknown), nested lists, values of the wrong type - the type checker's bookkeeping of the
@@ -660,7 +707,7 @@ def pretty_items(t):
     import c05
     import modelgen as MG
     items = []
-    for lab_, doc, kind in semantic_docs(t) + dynamic_docs(t) + edge_combination_docs(t) + initialiser_docs(t)[::7]:
+    for lab_, doc, kind in semantic_docs(t) + dynamic_docs(t) + edge_combination_docs(t) + initialiser_docs(t)[::7] + instantiation_docs(t)[::5]:
         if kind in ("xml", "xmlq"):
             items.append(("pretty:" + lab_, {"op": "block", "mode": "pretty-xml", "tpl": doc.replace("</nta>", "\x01</nta>", 1), "text": ""}))
         else:
@@ -728,7 +775,7 @@ def semantic_shard(arg):
     t, i, n = arg
     part = engine.Part()
     w = engine.worker("san")
-    docs = [d for k, d in enumerate(semantic_docs(t) + dynamic_docs(t) + initialiser_docs(t) + edge_combination_docs(t)) if k % n == i]
+    docs = [d for k, d in enumerate(semantic_docs(t) + dynamic_docs(t) + initialiser_docs(t) + edge_combination_docs(t) + instantiation_docs(t)) if k % n == i]
     for kind in ("xml", "xmlq", "xta", "xta-old"):
         sel = [d for d in docs if d[2] == kind]
         res = X.run_docs(w, [d[1] for d in sel], want=["queries"] if kind == "xmlq" else [], batch=25, kind="xml" if kind.startswith("xml") else "xta",
@@ -904,7 +951,7 @@ def main():
                 "formula, ...), through parseProperty with the TIGA builder and the property type checker, sanitized build. (7) %d whole texts "
                 "through the pretty-printing back end (every document of (5), every query of (6) and of the C03 forms, the C05 constructs, "
                 "25 statement forms in 4 surroundings and both syntaxes, the dynamic-template expressions and queries)."
-                % (len(cfgs), len(growth_families()), sizes, len(length_docs(t)), len(semantic_docs(t)) + len(dynamic_docs(t)) + len(initialiser_docs(t)) + len(edge_combination_docs(t)), len(ill_queries()[1]), len(pretty_items(t))))
+                % (len(cfgs), len(growth_families()), sizes, len(length_docs(t)), len(semantic_docs(t)) + len(dynamic_docs(t)) + len(initialiser_docs(t)) + len(edge_combination_docs(t)) + len(instantiation_docs(t)), len(ill_queries()[1]), len(pretty_items(t))))
     rep.nontrivial_count = states + len(xml_docs(t))
     rep.assumptions = ["digest pruning is sound if the digest covers everything later callbacks read (argued in DESIGN.md §3/C01); the "
                        "'shape' digest runs are heuristic and are not counted as exhaustive",
